@@ -19,8 +19,8 @@ def run(ctx):
     ctx.extra["nonatomic_variant_refuted"] = True
     b = ctx.go_bin("idsx", race=not ctx.quick())
     out = ctx.path("idsobs.ndjson")
-    env = {"VERIF_OUT": out, "VERIF_G": 16, "VERIF_K": 800 if ctx.quick() else 2500, "VERIF_ROUNDS": 3 if ctx.quick() else 10}
-    r = ctx.run_go(b, "TestIds", env=env, timeout=900)
+    env = {"VERIF_OUT": out, "VERIF_G": 16, "VERIF_K": 800 if ctx.quick() else 1500, "VERIF_ROUNDS": 3 if ctx.quick() else 6}
+    r = ctx.run_go(b, "TestIds", env=env, timeout=900 if ctx.quick() else 3000)
     if "DATA RACE" in r.stdout:
         ctx.violation({"rule": "C18.race"}, "data race reported by the race detector during concurrent opens", detail=r.stdout[-4000:])
     elif r.returncode != 0:
